@@ -1,6 +1,8 @@
 prop("C08", pkg="c08",
      rule="Each rapid case is either (90%) a target: a tgen struct type, a value, a protocol (binary strict / non-strict / compact), 1-3 random content trees used as "
-          "undeclared fields (every thrift type, nesting <= 3; ids: any int16 no struct of the type declares - 0 (11 %), negative, next to a declared id (+-1, +-2; 22 %), "
+          "undeclared fields (every thrift type, nesting <= 3; one in four is a collection of bools - list<bool>, set<bool>, map<bool,X>, map<X,bool>, alone or nested in a list, a map "
+          "value or a struct - and in the compact protocol the BOOL element/key/value type of any inserted collection is announced as 1 instead of 2 half of the time, both being "
+          "conformant and skipped by HEAD; ids: any int16 no struct of the type declares - 0 (11 %), negative, next to a declared id (+-1, +-2; 22 %), "
           "around the 64/128 bitmap words, arbitrary), 0-3 random byte strings, 0-6 byte "
           "flips and 1-3 trailing bytes - from which the probes are derived deterministically: the valid encoding (rendered through the package's own Writer), "
           "EVERY proper prefix through Unmarshal (and every third through a Decoder over bytes.Reader / bytes.Buffer / bufio / plain / one-byte readers), every "
